@@ -61,12 +61,17 @@ def register(reg):
 def register_b(reg):
     Opaque = reg.usort('Opaque')
     PeerRef = reg.usort('PeerRef', attrs={'host': KStr, 'ip_address': Opt(Opaque), 'is_tor': Bool, 'is_public': Bool,
-                                          'source': KStr, 'last_good': Real, 'bad': Bool})
+                                          'source': KStr, 'last_good': Real, 'bad': Bool, 'last_try': Real, 'try_count': Int,
+                                          'ip_addr': Opt(KStr)})
     reg.specfun('ext_bucket', [PeerRef], KStr)
     reg.specfun('peer_tuple', [PeerRef], Opaque)
     reg.builtin('U.bucket_for_external_interface', params={'self_': PeerRef}, returns=KStr,
                 ensures=['result == ext_bucket(self_)'], pure='ext_bucket(self_)',
                 trusted='A-CALLEE: Peer.bucket_for_external_interface is a function of the peer (T-IP)')
+    reg.specfun('int_bucket', [PeerRef], KStr)
+    reg.builtin('U.bucket_for_internal_purposes', params={'self_': PeerRef}, returns=KStr,
+                ensures=['result == int_bucket(self_)'], pure='int_bucket(self_)',
+                trusted='A-CALLEE: Peer.bucket_for_internal_purposes is a function of the peer (T-IP)')
     reg.builtin('U.to_tuple', params={'self_': PeerRef}, returns=Opaque, ensures=['result == peer_tuple(self_)'],
                 pure='peer_tuple(self_)',
                 trusted='A-CALLEE: Peer.to_tuple is a function of the peer')
